@@ -17,7 +17,7 @@ static std::vector<SetterDesc> setter_table() {
     std::vector<SetterDesc> t;
 #define API_PAIR(Q, T, N, A, R) { typedef decltype(setter_arg(&Q::N)) Arg; int ns = nsamples<Arg>(); \
     if (ns) t.push_back(SetterDesc{#T, #N, [](PDU& p) { return dynamic_cast<Q*>(&p) != 0; }, \
-        [](PDU& p, int k) -> int { try { static_cast<Q&>(p).N(sample<Arg>(k)); return 1; } catch (exception_base&) { return 0; } }, \
+        [](PDU& p, int k) -> int { try { static_cast<Q&>(p).N(sample<Arg>(k)); return 1; } catch (std::exception& e_) { if (!mc::tins_exc(e_)) throw; return 0; } }, \
         [](int k) { return show(sample<Arg>(k)); }, ns, std::is_arithmetic<Arg>::value || std::is_enum<Arg>::value || is_small_uint<Arg>::value}); }
 #include "api.inc"
 #undef API_PAIR
@@ -157,16 +157,23 @@ static std::string step(S& s, const Op& op) {
             std::string sh = sd.shown(op.b);
             bool oor = false;
             if (key == "IPSecAH.icv") oor = sh.size() > 1 && ((sh.size() - 1) / 2) % 4 != 0;          // ICV is a whole number of 32-bit words
+            if (key == "ICMPv6.nonce" || key == "ICMPv6.redirect_header") oor = sh.size() < 2 || ((sh.size() - 1) / 2 + 2) % 8 != 0;   // ND options are whole 8-octet units; these two encoders do not pad
             if (key == "ICMPv6.dns_search_list") oor = sh.find("\"\"") != std::string::npos;       // an empty name is the list terminator
             if (oor) { R.count("arguments_outside_wire_range"); s.depth--; return ""; }
         }
+        size_t raw0 = g_raw ? g_raw->count(*s.o) : 0;
         int ok = sd.apply(*s.o, op.b);
+        size_t raw1 = g_raw ? g_raw->count(*s.o) : 0;
         auto after = snapshot(*s.o);
         if (!ok) {
             if (after != before) return "api:rejected-but-changed:" + key + "|";
         } else {
             // additive setters append an option: the typed getter then returns the FIRST matching option
-            bool additive = hdr_size(after) > hdr_size(before);
+            // variable-size header fields are not options: the last value wins
+            static const char* sized[] = {"ICMPv6.multicast_address_records", "ICMPv6.sources", "RC4EAPOL.key", "RSNEAPOL.key", "IPSecAH.icv", "RTP.padding_size", 0};
+            bool sized_field = false;
+            for (int i = 0; sized[i]; ++i) if (key == sized[i]) sized_field = true;
+            bool additive = !sized_field && (hdr_size(after) > hdr_size(before) || raw1 > raw0);
             std::string want = sd.shown(op.b);
             const std::string& was = before[key];
             bool had_match = !was.empty() && was.find("option_not_found") == std::string::npos && was.find("field_not_present") == std::string::npos;
@@ -174,6 +181,8 @@ static std::string step(S& s, const Op& op) {
             bool derived = always_derived(key) || protocol_tag(key) || size_key(key);
             if (!derived) {
                 bool match = after[key] == want || equal_modulo_padding(want, after[key]);
+                // an earlier RAW option of the same type (possibly undecodable) is the first match: the getter legitimately does not move
+                if (!match && additive && raw0 > 0 && after[key] == was) match = true;
                 // scalar exactness (truncation of over-wide values) is C15's subject; empty containers that the decoder refuses are outside the
                 // representable domain of the option formats
                 if (!match && sd.scalar) { R.count("scalar_mismatch_left_to_C15"); want = after[key]; match = true; }
